@@ -352,6 +352,10 @@ class Check:
     def control(self, name, rejected):
         self.controls.append({'control': name, 'rejected': bool(rejected)})
         if not rejected:
+            if self.violations:
+                # a control that replays a wrong expectation against the code can coincide with the answer of a changed
+                # library (seen with X14): with violations already on record the run reports those, not a machinery failure
+                return
             raise MachineryError('negative control not rejected: %s' % name)
 
     # ---------------------------------------------------------------- evidence
